@@ -7,7 +7,7 @@ from fractions import Fraction as F
 from sa import term as T
 from sa.interp import Interp, SObj, SVar
 from sa.kernel import P, make_param
-from sa.load import AnalysisError, Repo, loc
+from sa.load import AnalysisError, Repo, loc, where_of
 from sa.report import Run
 from sa.scipp_model import Model
 from sa.term import Rat
@@ -106,7 +106,7 @@ def run(tier: str) -> Run:
     r3 = run.rule('R3', 'result unit is u(amplitude)/u(x); prefix does not change the result', 3)
     r4 = run.rule('R4', 'missing, unknown, un-prefixed and foreign-prefixed parameter names are refused', 15)
     for cname, (names, closed, fwhm_closed) in PEAKS.items():
-        fi = repo.func(MOD, f'{cname}._call')
+        fwhere = where_of(repo, MOD, f'{cname}._call', f'{cname}.__call__', 'Model.__call__')
         terms = {}
         for prefix in ('', 'pk_'):
             T.reset()
@@ -120,7 +120,7 @@ def run(tier: str) -> Run:
             got = unclamp(v.term)
             want = closed(S('x', False), S('amplitude', False), S('loc', False), S('scale'), S('fraction'))
             terms[prefix] = T.show(got)
-            r1.check(eq_term(got, want), f'{cname}[prefix={prefix!r}]', loc(fi), {'computed': T.show(got), 'closed_form': T.show(want)},
+            r1.check(eq_term(got, want), f'{cname}[prefix={prefix!r}]', fwhere, {'computed': T.show(got), 'closed_form': T.show(want)},
                      key=f'{cname}:form')
             if prefix == '':
                 # symmetry and half maximum, with the FWHM reported by the model itself
@@ -142,14 +142,14 @@ def run(tier: str) -> Run:
                 peak = f_t.subst({xa.id: mu})
                 half_p = f_t.subst({xa.id: mu + w_t / 2})
                 half_m = f_t.subst({xa.id: mu - w_t / 2})
-                r2.check(sym, f'{cname}: symmetric', loc(fi), {}, key=f'{cname}:symmetric')
+                r2.check(sym, f'{cname}: symmetric', fwhere, {}, key=f'{cname}:symmetric')
                 r2.check(eq_term(half_p * 2, peak) and eq_term(half_m * 2, peak) and eq_term(w_t, fwhm_closed(S('scale'))),
                          f'{cname}: half maximum at loc +/- fwhm/2', loc(repo.func(MOD, f'{cname}.fwhm')),
                          {'fwhm_reported': T.show(w_t), 'fwhm_closed_form': T.show(fwhm_closed(S('scale'))),
                           'value_at_half_width': T.show(half_p), 'peak_value': T.show(peak)}, key=f'{cname}:fwhm')
-                r3.check(v.unit == UY / UX, f'{cname}: unit', loc(fi), {'unit': repr(v.unit), 'expected': 'u(amplitude)/u(x)'}, key=f'{cname}:unit')
+                r3.check(v.unit == UY / UX, f'{cname}: unit', fwhere, {'unit': repr(v.unit), 'expected': 'u(amplitude)/u(x)'}, key=f'{cname}:unit')
         if terms.get('') != terms.get('pk_'):
-            r3.fail(f'{cname}: prefix independence', loc(fi), terms, key=f'{cname}:prefix')
+            r3.fail(f'{cname}: prefix independence', fwhere, terms, key=f'{cname}:prefix')
         # the FWHM of a prefixed model, asked with the full parameter dict of a fit (which also holds the parameters of the
         # other models, among them an un-prefixed 'scale'), is the one of its own scale
         T.reset()
@@ -183,7 +183,7 @@ def run(tier: str) -> Run:
     # ---- polynomial -------------------------------------------------------------
     r5 = run.rule('R5', 'polynomial equals sum a_i x^i (Horner loop), unit u(a0); float64 result for float32 / integer x', 4)
     degrees = (1, 2, 3) if tier == 'quick' else (1, 2, 3, 4, 5, 6)
-    pfi = repo.func(MOD, 'PolynomialModel._call')
+    pwhere = where_of(repo, MOD, 'PolynomialModel._call', 'PolynomialModel.__call__', 'Model.__call__')
     for deg in degrees:
         T.reset()
         it = Interp(repo, Model())
@@ -202,7 +202,7 @@ def run(tier: str) -> Run:
         for k in range(deg + 1):
             want = want + S(f'a{k}', False) * S('x', False) ** k
         bad_units = [e.detail for e in events(outs[0], 'unit-mismatch')]
-        r5.check(eq_term(v.term, want) and v.unit == Unit.param('y') and not bad_units, f'degree {deg}', loc(pfi),
+        r5.check(eq_term(v.term, want) and v.unit == Unit.param('y') and not bad_units, f'degree {deg}', pwhere,
                  {'computed': T.show(v.term), 'unit': repr(v.unit), 'unit_problems': bad_units[:2]}, key='polynomial')
     # the independent variable may be single precision or integer valued (e.g. sc.arange): same polynomial, float result
     for xdt in ('float32', 'int64'):
@@ -218,13 +218,13 @@ def run(tier: str) -> Run:
         ok = len(outs_dt) == 1 and outs_dt[0].kind == 'return' and isinstance(outs_dt[0].value, SVar) and outs_dt[0].value.term is not None \
             and eq_term(outs_dt[0].value.term, want) and outs_dt[0].value.dtype == 'float64'
         lossy = [dict(e.detail, where=e.where) for o in outs_dt for e in events(o, 'narrowing-cast', 'int-unit-conversion')]
-        r5.check(ok and not lossy, f'degree 2, x of dtype {xdt}', loc(pfi),
+        r5.check(ok and not lossy, f'degree 2, x of dtype {xdt}', pwhere,
                  {'outcomes': [(o.kind, o.exc_type, o.where) for o in outs_dt], 'dtype': getattr(outs_dt[0].value, 'dtype', None) if outs_dt and outs_dt[0].kind == 'return' else None,
                   'lossy': lossy[:2]}, key='polynomial-dtype')
 
     # ---- composite -----------------------------------------------------------------
     r6 = run.rule('R6', 'composite equals the sum of its parts; with_prefix acts on a copy', 2)
-    cfi = repo.func(MOD, 'CompositeModel._call')
+    cwhere = where_of(repo, MOD, 'CompositeModel._call', 'CompositeModel.__call__', 'Model.__call__')
     T.reset()
     it = Interp(repo, Model())
 
@@ -245,7 +245,7 @@ def run(tier: str) -> Run:
         want = S('a0', False) + S('a1', False) * S('x', False) + gauss(S('x', False), S('amplitude', False), S('loc', False), S('scale'))
         ok = eq_term(got, want)
         detail = {'computed': T.show(got)[:300]}
-    r6.check(ok, 'polynomial + gaussian', loc(cfi), detail, key='composite')
+    r6.check(ok, 'polynomial + gaussian', cwhere, detail, key='composite')
     # parts of different precision, both orders: the sum has the promoted dtype of the parts and is never refused
     for order, left_dtype in (('polynomial + gaussian', 'int64'), ('polynomial + gaussian', 'float32'), ('gaussian + polynomial', 'float32')):
         T.reset()
@@ -267,7 +267,7 @@ def run(tier: str) -> Run:
         outs2 = it.run_all(comp2)
         rets2 = [o for o in outs2 if o.kind == 'return']
         ok2 = len(outs2) == 1 and len(rets2) == 1 and isinstance(rets2[0].value, SVar) and rets2[0].value.dtype == 'float64'
-        r6.check(ok2, f'{order} with a {left_dtype} left part and x: float64 sum, not refused', loc(cfi),
+        r6.check(ok2, f'{order} with a {left_dtype} left part and x: float64 sum, not refused', cwhere,
                  {'outcomes': [(o.kind, o.exc_type, getattr(o.value, 'dtype', None) if o.kind == 'return' else o.where) for o in outs2]},
                  key=f'composite-dtype:{order}:{left_dtype}')
     T.reset()
@@ -276,16 +276,16 @@ def run(tier: str) -> Run:
     def wp(i):
         g = build(repo, i, 'GaussianModel', prefix='a_')
         w = i.call_function(i.find_method(g.cls, 'with_prefix'), ['b_'], {}, bound=g)
-        return g, w
+        # what the two models report through their public properties, asked after the renamed copy was made
+        rep = [(i.call_function(i.find_method(m.cls, 'prefix'), [], {}, bound=m), i.call_function(i.find_method(m.cls, 'param_names'), [], {}, bound=m)) for m in (g, w)]
+        return g, w, rep
     outs = it.run_all(wp)
     ok = len(outs) == 1 and outs[0].kind == 'return'
     detail = {}
     if ok:
-        g, w = outs[0].value
-        detail = {'original': (g.attrs.get('_prefix'), sorted(g.attrs.get('_prefixed_param_names', []))),
-                  'renamed': (w.attrs.get('_prefix'), sorted(w.attrs.get('_prefixed_param_names', [])))}
-        ok = g is not w and g.attrs['_prefix'] == 'a_' and g.attrs['_prefixed_param_names'] == {'a_amplitude', 'a_loc', 'a_scale'} \
-            and w.attrs['_prefix'] == 'b_' and w.attrs['_prefixed_param_names'] == {'b_amplitude', 'b_loc', 'b_scale'} \
-            and w.attrs['_param_names'] is not g.attrs['_param_names']
+        g, w, rep = outs[0].value
+        detail = {'original': (rep[0][0], sorted(rep[0][1]) if isinstance(rep[0][1], set) else repr(rep[0][1])),
+                  'renamed': (rep[1][0], sorted(rep[1][1]) if isinstance(rep[1][1], set) else repr(rep[1][1]))}
+        ok = g is not w and rep[0] == ('a_', {'a_amplitude', 'a_loc', 'a_scale'}) and rep[1] == ('b_', {'b_amplitude', 'b_loc', 'b_scale'})
     r6.check(ok, 'with_prefix', loc(repo.func(MOD, 'Model.with_prefix')), detail, key='with_prefix')
     return run
